@@ -372,7 +372,7 @@ META["C04"] = {
     "whenever is_arg holds (its reflective neighbours _parse_source_for_lambda / _resolve_helper "
     "are assumed contracts). Trusted: NodeTransformer dispatch model, ast.walk "
     "yields well-formed nodes, nested generators flatten; enum members are not covered.",
-    "technique": "sidecar contracts on _rewrite_captured_vars (is_arg, visit_Lambda, the comprehension visitors, class dispatch) and check_ast discharged with z3 (visitor hypothesis, list lemmas); by-value clause by bounded contract check on generated source modules, oracle = the callable itself at call time (labelled stand-in)",
+    "technique": "sidecar contracts on _rewrite_captured_vars (is_arg, visit_Name, visit_Lambda, visit_Call, the comprehension visitors, class dispatch) and check_ast discharged with z3 (visitor hypothesis, list lemmas); by-value clause by bounded contract check on generated source modules, oracle = the callable itself at call time (labelled stand-in)",
     "p_keys": True,
     "p_timeout": 600,
     "explanation": "scoping discipline and the refusal proved; replacement values bounded",
